@@ -628,17 +628,18 @@ def run(ctx) -> None:  # noqa: F811
               and "edge" in (_dotted(st.target) or "")]
     ctx.require(len(nudges) == 1, f"{init.qualname}: expected one in-place nudge of the bin edges, found {len(nudges)}")
     prep = repo.method("abtem.potentials.iam", "_FieldBuilderFromAtoms", "_prepare_atoms")
-    snaps = []
+    from ..model import ordered_compare as _oc
+
+    snaps = []  # comparisons `<height> - <constant> < z` in either orientation: (comparison, the constant)
     for c in _walk(prep.node):
-        if isinstance(c, _ast.Compare) and len(c.ops) == 1 and isinstance(c.ops[0], (_ast.Gt, _ast.GtE)) and \
-                isinstance(c.comparators[0], _ast.BinOp) and isinstance(c.comparators[0].op, _ast.Sub) and \
-                "cell_z" in _nt(c.comparators[0].left):
-            snaps.append(c)
+        o = _oc(c)
+        if o is not None and isinstance(o[0], _ast.BinOp) and isinstance(o[0].op, _ast.Sub):
+            try:
+                snaps.append((c, float(_fold(o[0].right, {}))))
+            except Exception:  # noqa: BLE001
+                pass
     ctx.require(len(snaps) == 1, f"{prep.qualname}: the snap `z > cell_z - s` was not found")
-    try:
-        s_val = float(_fold(snaps[0].comparators[0].right, {}))
-    except Exception as e:  # noqa: BLE001
-        raise _AE(f"{prep.qualname}: snap tolerance `{_nt(snaps[0].comparators[0].right)}` is not a constant") from e
+    s_val = snaps[0][1]
     try:
         t_val = float(_fold(nudges[0].value, {}))
         if isinstance(nudges[0].op, _ast.Add):
